@@ -1,9 +1,12 @@
 #!/bin/sh
 # try_mutant.sh <seeded name> <Cxx> [tier]: apply seeded/<name>/patch.diff to /repo, run the check, undo.
+# The evidence file of the property is put back afterwards: committed evidence comes from clean-tree runs only.
 name=$1; pid=$2; tier=${3:-quick}
 cd /verif
 git -C /repo diff --quiet || { echo "/repo is dirty"; exit 2; }
+cp evidence/$pid.json /tmp/evidence_$pid.keep 2>/dev/null
 git -C /repo apply /verif/seeded/$name/patch.diff || exit 2
 ./check $pid --tier $tier > /verif/work/mutant_$name.log 2>&1; rc=$?
 git -C /repo checkout -- .
+[ -f /tmp/evidence_$pid.keep ] && mv /tmp/evidence_$pid.keep evidence/$pid.json
 echo "== $name vs $pid: exit=$rc"; grep -E "VIOLATION|KNOWN-FINDING|ERROR|-> " /verif/work/mutant_$name.log | head -8
